@@ -63,7 +63,7 @@ impl ParseTree {
 pub struct ParserInstance {
     shared_state: Arc<Mutex<State>>,
     pub current_file: Arc<File>,
-    pub to_import: Arc<RefCell<HashMap<PathBuf, Span>>>,
+    pub to_import: Arc<RefCell<indexmap::IndexMap<PathBuf, Span>>>,
 }
 
 impl ParserInstance {
@@ -71,7 +71,7 @@ impl ParserInstance {
         Self {
             shared_state: state,
             current_file,
-            to_import: Arc::new(RefCell::new(HashMap::new())),
+            to_import: Arc::new(RefCell::new(indexmap::IndexMap::new())),
         }
     }
 
